@@ -915,3 +915,325 @@ Proof.
       try (destruct a; discriminate); try (destruct b; discriminate);
       injection Ea as <-; injection Eb as <-; reflexivity.
 Qed.
+
+(** ** The direction of the mean update in IEEE 754 binary64 (float level, not over the reals).
+
+    The model instantiated on [FloatInst.B64Num exp64 erfc64 pow64 icdf64 : Num binary64]
+    (Flocq's binary64, round to nearest even; the libm functions are arbitrary parameters, the
+    only premise being [0 <= exp64 x] on finite [x]).  [B2R 53 1024 x] is the real value of the
+    double [x]; [is_finite 53 1024 x = true] says "no overflow / no NaN".
+
+    Bradley-Terry ([bt_term], the fold of both BTF and BTP): [bt_term] takes the score s = 1
+    exactly when [t_rank ti < t_rank tq] and s = 0 exactly when [t_rank tq < t_rank ti].
+    [C05_bt_first_alone_omega_nonneg_binary64]: if the rank of [ti] is strictly better than the
+    rank of every opponent of the fold, the accumulated omega is >= 0 as a double: each
+    p = fl(1/fl(1+e)) is in [0,1], so fl(1-p) >= 0, fl(s2c * fl(1-p)) >= 0 and the float sum of
+    non-negative terms is >= 0 (rounding is monotone and 0, 1 are doubles).
+    [C05_bt_last_alone_omega_nonpos_binary64]: strictly worse than every opponent: omega <= 0.
+    [C05_update_mu_direction_binary64]: mu' = fl(mu + fl(share * omega)) with share >= 0 is
+    >= mu when omega >= 0 and <= mu when omega <= 0, as doubles, with no rounding slack; the
+    only finiteness hypothesis is that of the result.
+    [C05_bt_first_alone_mu_binary64], [C05_bt_last_alone_mu_binary64]: the two composed: "a team
+    that finishes first alone never loses rating, last alone never gains", on the very doubles.
+    Finiteness of the operands is derived from the finiteness of the accumulated sums. *)
+From Flocq Require Import IEEE754.BinarySingleNaN IEEE754.Binary IEEE754.Bits.
+From OSV Require Import FloatInst.
+From OSV.Lemmas Require FloatOrderL FloatSignL.
+
+Theorem C05_bt_first_alone_omega_nonneg_binary64 :
+  forall (exp64 erfc64 pow64 icdf64 : binary64 -> binary64)
+         (P : params binary64) (trs : list (trating binary64)) (ti : trating binary64)
+         (opp : list (trating binary64)),
+  (forall x : binary64, is_finite 53 1024 x = true -> 0 <= B2R 53 1024 (exp64 x)) ->
+  0 <= B2R 53 1024 (t_ss ti) ->
+  (forall tq : trating binary64, In tq opp ->
+     (t_rank ti < t_rank tq)%nat
+     /\ 0 < B2R 53 1024 (@c_iq binary64 (B64Num exp64 erfc64 pow64 icdf64) P ti tq)
+     /\ is_finite 53 1024
+          (@fdiv binary64 (B64Num exp64 erfc64 pow64 icdf64)
+             (@fsub binary64 (B64Num exp64 erfc64 pow64 icdf64) (t_mu tq) (t_mu ti))
+             (@c_iq binary64 (B64Num exp64 erfc64 pow64 icdf64) P ti tq)) = true
+     /\ is_finite 53 1024
+          (@fadd binary64 (B64Num exp64 erfc64 pow64 icdf64) (@fone binary64 (B64Num exp64 erfc64 pow64 icdf64))
+             (exp64 (@fdiv binary64 (B64Num exp64 erfc64 pow64 icdf64)
+                       (@fsub binary64 (B64Num exp64 erfc64 pow64 icdf64) (t_mu tq) (t_mu ti))
+                       (@c_iq binary64 (B64Num exp64 erfc64 pow64 icdf64) P ti tq)))) = true) ->
+  (forall pre post : list (trating binary64), opp = pre ++ post ->
+     is_finite 53 1024
+       (fst (fold_left (@bt_term binary64 (B64Num exp64 erfc64 pow64 icdf64) P trs ti) pre
+               (@fzero binary64 (B64Num exp64 erfc64 pow64 icdf64),
+                @fzero binary64 (B64Num exp64 erfc64 pow64 icdf64)))) = true) ->
+  0 <= B2R 53 1024
+         (fst (fold_left (@bt_term binary64 (B64Num exp64 erfc64 pow64 icdf64) P trs ti) opp
+                 (@fzero binary64 (B64Num exp64 erfc64 pow64 icdf64),
+                  @fzero binary64 (B64Num exp64 erfc64 pow64 icdf64)))).
+Proof. exact FloatSignL.bt_omega_nonneg_b64. Qed.
+Print Assumptions C05_bt_first_alone_omega_nonneg_binary64.
+
+Theorem C05_bt_last_alone_omega_nonpos_binary64 :
+  forall (exp64 erfc64 pow64 icdf64 : binary64 -> binary64)
+         (P : params binary64) (trs : list (trating binary64)) (ti : trating binary64)
+         (opp : list (trating binary64)),
+  (forall x : binary64, is_finite 53 1024 x = true -> 0 <= B2R 53 1024 (exp64 x)) ->
+  0 <= B2R 53 1024 (t_ss ti) ->
+  (forall tq : trating binary64, In tq opp ->
+     (t_rank tq < t_rank ti)%nat
+     /\ 0 < B2R 53 1024 (@c_iq binary64 (B64Num exp64 erfc64 pow64 icdf64) P ti tq)
+     /\ is_finite 53 1024
+          (@fdiv binary64 (B64Num exp64 erfc64 pow64 icdf64)
+             (@fsub binary64 (B64Num exp64 erfc64 pow64 icdf64) (t_mu tq) (t_mu ti))
+             (@c_iq binary64 (B64Num exp64 erfc64 pow64 icdf64) P ti tq)) = true
+     /\ is_finite 53 1024
+          (@fadd binary64 (B64Num exp64 erfc64 pow64 icdf64) (@fone binary64 (B64Num exp64 erfc64 pow64 icdf64))
+             (exp64 (@fdiv binary64 (B64Num exp64 erfc64 pow64 icdf64)
+                       (@fsub binary64 (B64Num exp64 erfc64 pow64 icdf64) (t_mu tq) (t_mu ti))
+                       (@c_iq binary64 (B64Num exp64 erfc64 pow64 icdf64) P ti tq)))) = true) ->
+  (forall pre post : list (trating binary64), opp = pre ++ post ->
+     is_finite 53 1024
+       (fst (fold_left (@bt_term binary64 (B64Num exp64 erfc64 pow64 icdf64) P trs ti) pre
+               (@fzero binary64 (B64Num exp64 erfc64 pow64 icdf64),
+                @fzero binary64 (B64Num exp64 erfc64 pow64 icdf64)))) = true) ->
+  B2R 53 1024
+    (fst (fold_left (@bt_term binary64 (B64Num exp64 erfc64 pow64 icdf64) P trs ti) opp
+            (@fzero binary64 (B64Num exp64 erfc64 pow64 icdf64),
+             @fzero binary64 (B64Num exp64 erfc64 pow64 icdf64)))) <= 0.
+Proof. exact FloatSignL.bt_omega_nonpos_b64. Qed.
+Print Assumptions C05_bt_last_alone_omega_nonpos_binary64.
+
+Theorem C05_update_mu_direction_binary64 :
+  forall (exp64 erfc64 pow64 icdf64 : binary64 -> binary64)
+         (P : params binary64) (ti : trating binary64) (omega delta : binary64) (p : rating binary64),
+  0 <= B2R 53 1024 (@fdiv binary64 (B64Num exp64 erfc64 pow64 icdf64)
+                      (@fpow2 binary64 (B64Num exp64 erfc64 pow64 icdf64) (r_sigma p)) (t_ss ti)) ->
+  is_finite 53 1024
+    (r_mu (@update_player binary64 (B64Num exp64 erfc64 pow64 icdf64) P ti omega delta p)) = true ->
+  (0 <= B2R 53 1024 omega ->
+   B2R 53 1024 (r_mu p)
+   <= B2R 53 1024 (r_mu (@update_player binary64 (B64Num exp64 erfc64 pow64 icdf64) P ti omega delta p)))
+  /\ (B2R 53 1024 omega <= 0 ->
+      B2R 53 1024 (r_mu (@update_player binary64 (B64Num exp64 erfc64 pow64 icdf64) P ti omega delta p))
+      <= B2R 53 1024 (r_mu p)).
+Proof. exact FloatSignL.update_player_mu_direction_b64. Qed.
+Print Assumptions C05_update_mu_direction_binary64.
+
+(** composed: every member [p] of a team ranked strictly better than all its opponents gets a
+    new mu >= the old one (instantiate [p] by each element of [t_team ti]: this is the mu that
+    [update_team], i.e. [compute BTF/BTP], returns for that player) *)
+Theorem C05_bt_first_alone_mu_binary64 :
+  forall (exp64 erfc64 pow64 icdf64 : binary64 -> binary64)
+         (P : params binary64) (trs : list (trating binary64)) (ti : trating binary64)
+         (opp : list (trating binary64)) (p : rating binary64),
+  (forall x : binary64, is_finite 53 1024 x = true -> 0 <= B2R 53 1024 (exp64 x)) ->
+  0 <= B2R 53 1024 (t_ss ti) ->
+  (forall tq : trating binary64, In tq opp ->
+     (t_rank ti < t_rank tq)%nat
+     /\ 0 < B2R 53 1024 (@c_iq binary64 (B64Num exp64 erfc64 pow64 icdf64) P ti tq)
+     /\ is_finite 53 1024
+          (@fdiv binary64 (B64Num exp64 erfc64 pow64 icdf64)
+             (@fsub binary64 (B64Num exp64 erfc64 pow64 icdf64) (t_mu tq) (t_mu ti))
+             (@c_iq binary64 (B64Num exp64 erfc64 pow64 icdf64) P ti tq)) = true
+     /\ is_finite 53 1024
+          (@fadd binary64 (B64Num exp64 erfc64 pow64 icdf64) (@fone binary64 (B64Num exp64 erfc64 pow64 icdf64))
+             (exp64 (@fdiv binary64 (B64Num exp64 erfc64 pow64 icdf64)
+                       (@fsub binary64 (B64Num exp64 erfc64 pow64 icdf64) (t_mu tq) (t_mu ti))
+                       (@c_iq binary64 (B64Num exp64 erfc64 pow64 icdf64) P ti tq)))) = true) ->
+  (forall pre post : list (trating binary64), opp = pre ++ post ->
+     is_finite 53 1024
+       (fst (fold_left (@bt_term binary64 (B64Num exp64 erfc64 pow64 icdf64) P trs ti) pre
+               (@fzero binary64 (B64Num exp64 erfc64 pow64 icdf64),
+                @fzero binary64 (B64Num exp64 erfc64 pow64 icdf64)))) = true) ->
+  0 <= B2R 53 1024 (@fdiv binary64 (B64Num exp64 erfc64 pow64 icdf64)
+                      (@fpow2 binary64 (B64Num exp64 erfc64 pow64 icdf64) (r_sigma p)) (t_ss ti)) ->
+  is_finite 53 1024
+    (r_mu (@update_player binary64 (B64Num exp64 erfc64 pow64 icdf64) P ti
+       (fst (fold_left (@bt_term binary64 (B64Num exp64 erfc64 pow64 icdf64) P trs ti) opp
+               (@fzero binary64 (B64Num exp64 erfc64 pow64 icdf64),
+                @fzero binary64 (B64Num exp64 erfc64 pow64 icdf64))))
+       (snd (fold_left (@bt_term binary64 (B64Num exp64 erfc64 pow64 icdf64) P trs ti) opp
+               (@fzero binary64 (B64Num exp64 erfc64 pow64 icdf64),
+                @fzero binary64 (B64Num exp64 erfc64 pow64 icdf64)))) p)) = true ->
+  B2R 53 1024 (r_mu p)
+  <= B2R 53 1024
+       (r_mu (@update_player binary64 (B64Num exp64 erfc64 pow64 icdf64) P ti
+          (fst (fold_left (@bt_term binary64 (B64Num exp64 erfc64 pow64 icdf64) P trs ti) opp
+                  (@fzero binary64 (B64Num exp64 erfc64 pow64 icdf64),
+                   @fzero binary64 (B64Num exp64 erfc64 pow64 icdf64))))
+          (snd (fold_left (@bt_term binary64 (B64Num exp64 erfc64 pow64 icdf64) P trs ti) opp
+                  (@fzero binary64 (B64Num exp64 erfc64 pow64 icdf64),
+                   @fzero binary64 (B64Num exp64 erfc64 pow64 icdf64)))) p)).
+Proof. exact FloatSignL.bt_first_alone_mu_b64. Qed.
+Print Assumptions C05_bt_first_alone_mu_binary64.
+
+Theorem C05_bt_last_alone_mu_binary64 :
+  forall (exp64 erfc64 pow64 icdf64 : binary64 -> binary64)
+         (P : params binary64) (trs : list (trating binary64)) (ti : trating binary64)
+         (opp : list (trating binary64)) (p : rating binary64),
+  (forall x : binary64, is_finite 53 1024 x = true -> 0 <= B2R 53 1024 (exp64 x)) ->
+  0 <= B2R 53 1024 (t_ss ti) ->
+  (forall tq : trating binary64, In tq opp ->
+     (t_rank tq < t_rank ti)%nat
+     /\ 0 < B2R 53 1024 (@c_iq binary64 (B64Num exp64 erfc64 pow64 icdf64) P ti tq)
+     /\ is_finite 53 1024
+          (@fdiv binary64 (B64Num exp64 erfc64 pow64 icdf64)
+             (@fsub binary64 (B64Num exp64 erfc64 pow64 icdf64) (t_mu tq) (t_mu ti))
+             (@c_iq binary64 (B64Num exp64 erfc64 pow64 icdf64) P ti tq)) = true
+     /\ is_finite 53 1024
+          (@fadd binary64 (B64Num exp64 erfc64 pow64 icdf64) (@fone binary64 (B64Num exp64 erfc64 pow64 icdf64))
+             (exp64 (@fdiv binary64 (B64Num exp64 erfc64 pow64 icdf64)
+                       (@fsub binary64 (B64Num exp64 erfc64 pow64 icdf64) (t_mu tq) (t_mu ti))
+                       (@c_iq binary64 (B64Num exp64 erfc64 pow64 icdf64) P ti tq)))) = true) ->
+  (forall pre post : list (trating binary64), opp = pre ++ post ->
+     is_finite 53 1024
+       (fst (fold_left (@bt_term binary64 (B64Num exp64 erfc64 pow64 icdf64) P trs ti) pre
+               (@fzero binary64 (B64Num exp64 erfc64 pow64 icdf64),
+                @fzero binary64 (B64Num exp64 erfc64 pow64 icdf64)))) = true) ->
+  0 <= B2R 53 1024 (@fdiv binary64 (B64Num exp64 erfc64 pow64 icdf64)
+                      (@fpow2 binary64 (B64Num exp64 erfc64 pow64 icdf64) (r_sigma p)) (t_ss ti)) ->
+  is_finite 53 1024
+    (r_mu (@update_player binary64 (B64Num exp64 erfc64 pow64 icdf64) P ti
+       (fst (fold_left (@bt_term binary64 (B64Num exp64 erfc64 pow64 icdf64) P trs ti) opp
+               (@fzero binary64 (B64Num exp64 erfc64 pow64 icdf64),
+                @fzero binary64 (B64Num exp64 erfc64 pow64 icdf64))))
+       (snd (fold_left (@bt_term binary64 (B64Num exp64 erfc64 pow64 icdf64) P trs ti) opp
+               (@fzero binary64 (B64Num exp64 erfc64 pow64 icdf64),
+                @fzero binary64 (B64Num exp64 erfc64 pow64 icdf64)))) p)) = true ->
+  B2R 53 1024
+    (r_mu (@update_player binary64 (B64Num exp64 erfc64 pow64 icdf64) P ti
+       (fst (fold_left (@bt_term binary64 (B64Num exp64 erfc64 pow64 icdf64) P trs ti) opp
+               (@fzero binary64 (B64Num exp64 erfc64 pow64 icdf64),
+                @fzero binary64 (B64Num exp64 erfc64 pow64 icdf64))))
+       (snd (fold_left (@bt_term binary64 (B64Num exp64 erfc64 pow64 icdf64) P trs ti) opp
+               (@fzero binary64 (B64Num exp64 erfc64 pow64 icdf64),
+                @fzero binary64 (B64Num exp64 erfc64 pow64 icdf64)))) p))
+  <= B2R 53 1024 (r_mu p).
+Proof. exact FloatSignL.bt_last_alone_mu_b64. Qed.
+Print Assumptions C05_bt_last_alone_mu_binary64.
+
+(** ** Non-vacuity of the binary64 statements: concrete doubles.
+    Stand-ins for the libm parameters: [x ** 2 := x * x], [exp := |x|] (non-negative, as the
+    hypothesis on exp requires); the others are not used.  beta = 25/6, kappa = 2^-13, default
+    gamma; team aggregates (mu, sigma^2, rank) = (25, 139, 0), (30, 50, 1), (20, 200, 2).
+    The first team is alone in first place, the third alone in last place; omega is strictly
+    positive resp. strictly negative here (second conjunct, by computation on doubles). *)
+Example C05_bt_first_alone_omega_nonneg_binary64_example :
+  let N := B64Num b64_abs (fun x => x) (fun x => b64_mult mode_NE x x) (fun x => x) in
+  let P := @mkParams binary64 (b64_of_bits 4616377268039232171) (b64_of_dyadic 1 (-13))
+             (@gamma_default binary64 N) in
+  let ti := @mkT binary64 (b64_of_Z 25) (b64_of_Z 139) [] 0 in
+  let t1 := @mkT binary64 (b64_of_Z 30) (b64_of_Z 50) [] 1 in
+  let t2 := @mkT binary64 (b64_of_Z 20) (b64_of_Z 200) [] 2 in
+  0 <= B2R 53 1024
+         (fst (fold_left (@bt_term binary64 N P [ti; t1; t2] ti) [t1; t2]
+                 (@fzero binary64 N, @fzero binary64 N)))
+  /\ b64_ltb (@fzero binary64 N)
+       (fst (fold_left (@bt_term binary64 N P [ti; t1; t2] ti) [t1; t2]
+               (@fzero binary64 N, @fzero binary64 N))) = true.
+Proof.
+  intros N P ti t1 t2. split; [|vm_compute; reflexivity].
+  apply C05_bt_first_alone_omega_nonneg_binary64.
+  - intros x _. change (0 <= B2R 53 1024 (Babs 53 1024 unop_nan_pl64 x)).
+    rewrite B2R_Babs. apply Rabs_pos.
+  - apply FloatOrderL.b64_sign_nonneg. vm_compute. reflexivity.
+  - intros tq [<-|[<-|[]]]; (split; [cbn; lia|]);
+      (split; [apply FloatOrderL.b64_sign_pos; vm_compute; reflexivity|]);
+      split; vm_compute; reflexivity.
+  - intros [|a [|b [|c pre]]] post E; cbn [app] in E.
+    + vm_compute. reflexivity.
+    + injection E as <- _. vm_compute. reflexivity.
+    + injection E as <- <- _. vm_compute. reflexivity.
+    + discriminate E.
+Qed.
+
+Example C05_bt_last_alone_omega_nonpos_binary64_example :
+  let N := B64Num b64_abs (fun x => x) (fun x => b64_mult mode_NE x x) (fun x => x) in
+  let P := @mkParams binary64 (b64_of_bits 4616377268039232171) (b64_of_dyadic 1 (-13))
+             (@gamma_default binary64 N) in
+  let t0 := @mkT binary64 (b64_of_Z 25) (b64_of_Z 139) [] 0 in
+  let t1 := @mkT binary64 (b64_of_Z 30) (b64_of_Z 50) [] 1 in
+  let ti := @mkT binary64 (b64_of_Z 20) (b64_of_Z 200) [] 2 in
+  B2R 53 1024
+    (fst (fold_left (@bt_term binary64 N P [t0; t1; ti] ti) [t0; t1]
+            (@fzero binary64 N, @fzero binary64 N))) <= 0
+  /\ b64_ltb (fst (fold_left (@bt_term binary64 N P [t0; t1; ti] ti) [t0; t1]
+                     (@fzero binary64 N, @fzero binary64 N)))
+             (@fzero binary64 N) = true.
+Proof.
+  intros N P t0 t1 ti. split; [|vm_compute; reflexivity].
+  apply C05_bt_last_alone_omega_nonpos_binary64.
+  - intros x _. change (0 <= B2R 53 1024 (Babs 53 1024 unop_nan_pl64 x)).
+    rewrite B2R_Babs. apply Rabs_pos.
+  - apply FloatOrderL.b64_sign_nonneg. vm_compute. reflexivity.
+  - intros tq [<-|[<-|[]]]; (split; [cbn; lia|]);
+      (split; [apply FloatOrderL.b64_sign_pos; vm_compute; reflexivity|]);
+      split; vm_compute; reflexivity.
+  - intros [|a [|b [|c pre]]] post E; cbn [app] in E.
+    + vm_compute. reflexivity.
+    + injection E as <- _. vm_compute. reflexivity.
+    + injection E as <- <- _. vm_compute. reflexivity.
+    + discriminate E.
+Qed.
+
+(** mu = 25.0, sigma = 25/3 (0x4020AAAAAAAAAAAB), team sigma^2 = 139.0: omega = 0.5 raises mu,
+    omega = -0.5 lowers it (strictly, by computation on doubles) *)
+Example C05_update_mu_direction_binary64_example :
+  let N := B64Num b64_abs (fun x => x) (fun x => b64_mult mode_NE x x) (fun x => x) in
+  let P := @mkParams binary64 (b64_of_bits 4616377268039232171) (b64_of_dyadic 1 (-13))
+             (fun _ _ _ _ _ _ => b64_of_Z 1) in
+  let p := @mkRating binary64 (b64_of_bits 4627730092099895296) (b64_of_bits 4620880867666602667) 0%Z NmNone in
+  let ti := @mkT binary64 (b64_of_bits 4627730092099895296) (b64_of_Z 139) [p] 0 in
+  let up := b64_of_dyadic 1 (-1) in
+  let down := b64_opp (b64_of_dyadic 1 (-1)) in
+  let delta := b64_of_dyadic 1 (-2) in
+  (B2R 53 1024 (r_mu p) <= B2R 53 1024 (r_mu (@update_player binary64 N P ti up delta p))
+   /\ b64_ltb (r_mu p) (r_mu (@update_player binary64 N P ti up delta p)) = true)
+  /\ (B2R 53 1024 (r_mu (@update_player binary64 N P ti down delta p)) <= B2R 53 1024 (r_mu p)
+      /\ b64_ltb (r_mu (@update_player binary64 N P ti down delta p)) (r_mu p) = true).
+Proof.
+  intros N P p ti up down delta. split; (split; [|vm_compute; reflexivity]).
+  - apply (C05_update_mu_direction_binary64 b64_abs (fun x => x) (fun x => b64_mult mode_NE x x) (fun x => x)
+             P ti up delta p).
+    + apply FloatOrderL.b64_sign_nonneg. vm_compute. reflexivity.
+    + vm_compute. reflexivity.
+    + apply FloatOrderL.b64_sign_nonneg. vm_compute. reflexivity.
+  - apply (C05_update_mu_direction_binary64 b64_abs (fun x => x) (fun x => b64_mult mode_NE x x) (fun x => x)
+             P ti down delta p).
+    + apply FloatOrderL.b64_sign_nonneg. vm_compute. reflexivity.
+    + vm_compute. reflexivity.
+    + replace (B2R 53 1024 down) with (- B2R 53 1024 up) by (symmetry; apply B2R_Bopp).
+      assert (0 <= B2R 53 1024 up) by (apply FloatOrderL.b64_sign_nonneg; vm_compute; reflexivity). lra.
+Qed.
+
+(** the composition on a two-player team (25, 25/3), (30.5, 7.25) ranked first alone against
+    (30, 50, rank 1) and (20, 200, rank 2): both players' mu strictly increase *)
+Example C05_bt_first_alone_mu_binary64_example :
+  let N := B64Num b64_abs (fun x => x) (fun x => b64_mult mode_NE x x) (fun x => x) in
+  let P := @mkParams binary64 (b64_of_bits 4616377268039232171) (b64_of_dyadic 1 (-13))
+             (@gamma_default binary64 N) in
+  let p1 := @mkRating binary64 (b64_of_bits 4627730092099895296) (b64_of_bits 4620880867666602667) 0%Z NmNone in
+  let p2 := @mkRating binary64 (b64_of_bits 4629278204471803904) (b64_of_bits 4619848792751996928) 1%Z NmNone in
+  let ti := @team_rating binary64 N [p1; p2] 0 in
+  let t1 := @mkT binary64 (b64_of_Z 30) (b64_of_Z 50) [] 1 in
+  let t2 := @mkT binary64 (b64_of_Z 20) (b64_of_Z 200) [] 2 in
+  let od := fold_left (@bt_term binary64 N P [ti; t1; t2] ti) [t1; t2] (@fzero binary64 N, @fzero binary64 N) in
+  forall p, In p (t_team ti) ->
+  B2R 53 1024 (r_mu p) <= B2R 53 1024 (r_mu (@update_player binary64 N P ti (fst od) (snd od) p))
+  /\ b64_ltb (r_mu p) (r_mu (@update_player binary64 N P ti (fst od) (snd od) p)) = true.
+Proof.
+  intros N P p1 p2 ti t1 t2 od p Hp.
+  assert (Hp' : p = p1 \/ p = p2) by (destruct Hp as [<-|[<-|[]]]; auto).
+  split; [|destruct Hp' as [->| ->]; vm_compute; reflexivity].
+  apply C05_bt_first_alone_mu_binary64.
+  - intros x _. change (0 <= B2R 53 1024 (Babs 53 1024 unop_nan_pl64 x)).
+    rewrite B2R_Babs. apply Rabs_pos.
+  - apply FloatOrderL.b64_sign_nonneg. vm_compute. reflexivity.
+  - intros tq [<-|[<-|[]]]; (split; [cbn; lia|]);
+      (split; [apply FloatOrderL.b64_sign_pos; vm_compute; reflexivity|]);
+      split; vm_compute; reflexivity.
+  - intros [|a [|b [|c pre]]] post E; cbn [app] in E.
+    + vm_compute. reflexivity.
+    + injection E as <- _. vm_compute. reflexivity.
+    + injection E as <- <- _. vm_compute. reflexivity.
+    + discriminate E.
+  - destruct Hp' as [->| ->]; apply FloatOrderL.b64_sign_nonneg; vm_compute; reflexivity.
+  - destruct Hp' as [->| ->]; vm_compute; reflexivity.
+Qed.
